@@ -42,6 +42,20 @@ Proof.
     + apply IH; [exact Hl|]. intros Hi. apply Hx. right. exact Hi.
 Qed.
 
+Lemma nth_error_firstn_lt {A} (l : list A) : forall n j, (j < n)%nat -> nth_error (firstn n l) j = nth_error l j.
+Proof.
+  induction l as [|a l IH]; intros n j Hj.
+  - rewrite firstn_nil. reflexivity.
+  - destruct n; [lia|]. destruct j; cbn [firstn nth_error]; [reflexivity|]. apply IH. lia.
+Qed.
+
+Lemma nth_error_skipn_add {A} (l : list A) : forall n j, nth_error (skipn n l) j = nth_error l (n + j).
+Proof.
+  induction l as [|a l IH]; intros n j.
+  - rewrite skipn_nil. destruct j, n; reflexivity.
+  - destruct n; cbn [skipn plus nth_error]; [reflexivity|]. apply IH.
+Qed.
+
 Section Hist.
   Variable H : bytes -> bytes.
   Variable sign : bytes -> N -> bytes.
@@ -56,6 +70,8 @@ Section Hist.
   Hypothesis cfg_direct : c_indirect cfg = false.
   Hypothesis cfg_maxr : 1 <= c_maxr cfg <= max_i64.
 
+  Set Default Proof Using "All".
+
   Notation stepf := (step H sign is_precert cfg trusted wiring_ok).
   Notation afterf := (after H sign is_precert cfg trusted wiring_ok).
   Notation ans := (answer_at H sign is_precert cfg trusted wiring_ok).
@@ -63,6 +79,12 @@ Section Hist.
   Notation fe_get_sth := (fe_get_sth H sign cfg).
   Notation values := LogModel.values.
   Notation bsize := LogModel.bsize.
+  (* part A's lemmas, all closed over the same section context *)
+  Notation consistency_zero := (consistency_zero H sign is_precert cfg trusted H_len cfg_log cfg_direct cfg_maxr).
+  Notation consistency_200 := (consistency_200 H sign is_precert cfg trusted H_len cfg_log cfg_direct cfg_maxr).
+  Notation entry_and_proof_200 := (entry_and_proof_200 H sign is_precert cfg trusted H_len cfg_log cfg_direct cfg_maxr).
+  Notation entries_200 := (entries_200 H sign is_precert cfg trusted H_len cfg_log cfg_direct cfg_maxr).
+  Notation get_sth_200 := (get_sth_200 H sign is_precert cfg trusted H_len cfg_log cfg_direct cfg_maxr).
 
   (* the leaf the front end builds for an admissible submission *)
   Definition built (lf : bleaf) (pre : bool) (cert : bytes) (chain : list bytes) (pe : option (bytes * bytes)) (now : Z) : Prop :=
@@ -308,7 +330,7 @@ Section Hist.
     intros Hs Hn Hc size ts root.
     assert (Ets : Z.to_N (bns (be st) / 1000 / 1000) = ts) by (unfold ts; rewrite Z.div_div by lia; reflexivity).
     pose proof (sth_input_ok (be st) Hs Hn) as Hser. rewrite Ets in Hser. fold size root in Hser.
-    destruct (get_sth_200 H sign cfg H_len cfg_log st rnd (enc_sth_siginput ts size root)) as (sg & Ha & _ & Hsg).
+    destruct (get_sth_200 st rnd (enc_sth_siginput ts size root)) as (sg & Ha & _ & Hsg).
     - rewrite Ets. exact Hser.
     - exact sign_nonempty.
     - intros i s Hcs. apply (Hc i s Hcs).
@@ -404,7 +426,7 @@ Section Hist.
     - (* first = 0: the empty proof *)
       exists []. split.
       + assert (Hf0 : parse_int64 pf = Some 0) by (rewrite Hf, Z1; reflexivity).
-        apply (consistency_zero H cfg cfg_direct st3 pf ps (Z.of_N n2) Hf0 Hs); lia.
+        apply (consistency_zero st3 pf ps (Z.of_N n2) Hf0 Hs); lia.
       + unfold client_verify_consistency, verify_consistency. rewrite Z1.
         replace (n2 <? 0)%N with false by (symmetry; apply N.ltb_ge; lia).
         destruct (0 =? n2)%N eqn:E0; [|reflexivity].
@@ -462,14 +484,14 @@ Section Hist.
     pose proof (inv_after ns0 _ Hh) as Hinv. fold st3 in Hinv.
     unfold answer_at. fold st3. cbn [step snd]. split; [|split; [reflexivity|]].
     - assert (Hne : lv lf <> []) by (eapply seq_leaf_nonempty; eauto).
-      rewrite (entry_and_proof_200 H cfg cfg_direct st3 pli pts i (Z.of_N n) lf); try assumption; try lia.
+      rewrite (entry_and_proof_200 st3 pli pts i (Z.of_N n) lf); try assumption; try lia.
       rewrite N2Z.id. reflexivity.
     - unfold client_verify_inclusion. rewrite Rt. unfold root_of.
       set (l := firstN n (values (be st3))).
       assert (Ll : lenN l = n) by (unfold l; apply lenN_firstN; rewrite bsize_values; exact L).
       assert (Hnth : nthN (Z.to_N i) l [] = lv lf).
       { unfold l. rewrite nthN_firstN by lia. apply nth_values; [exact Hn|lia]. }
-      rewrite <- Hnth. rewrite <- Ll at 1. apply vpath_complete. lia.
+      rewrite <- Hnth. rewrite <- Ll at 1. apply vpath_complete. unfold bytes, lenN in *. lia.
   Qed.
 
   (* get-entries serves the stored bytes of consecutive sequenced indices from start *)
@@ -482,7 +504,7 @@ Section Hist.
         exists lf, nth_error (bs (be (afterf s0 ops))) (Z.to_nat st0 + j) = Some lf /\ v = lv lf /\ x = lx lf.
   Proof.
     intros Hs He H0 Hlt. set (st := afterf s0 ops) in *.
-    destruct (entries_200 H cfg cfg_direct cfg_maxr st ps pe st0 e0 Hs He H0 Hlt) as (en & _ & Hen & Hmax & Ha).
+    destruct (entries_200 st ps pe st0 e0 Hs He H0 Hlt) as (en & _ & Hen & Hmax & Ha).
     cbv zeta in Ha. eexists. split; [unfold answer_at; fold st; cbn [step snd]; exact Ha|].
     set (cnt := Z.min (en - st0 + 1) (Z.of_N (bsize (be st)) - st0)) in *.
     set (ls := firstn (Z.to_nat cnt) (skipn (Z.to_nat st0) (bs (be st)))).
@@ -497,7 +519,7 @@ Section Hist.
       exists lf. split; [|split; reflexivity].
       unfold ls in El. assert (Hjl : (j < Z.to_nat cnt)%nat).
       { rewrite <- Hlen. apply nth_error_Some. unfold ls. congruence. }
-      rewrite nth_error_firstn in El by exact Hjl. rewrite nth_error_skipn in El. exact El.
+      rewrite nth_error_firstn_lt in El by exact Hjl. rewrite nth_error_skipn_add in El. exact El.
   Qed.
 
 End Hist.
